@@ -1,6 +1,7 @@
 package main
 
 import (
+	"database/sql"
 	"encoding/json"
 	"fmt"
 	"math"
@@ -23,6 +24,37 @@ type c12Case struct {
 	Pattern string `json:"pattern"` // one letter per feature: A small box, B box extending the extent, E empty geometry
 	Schema  string `json:"schema"`  // "fid" or "mixed"
 	GType   string `json:"geometry_type"`
+	// Second: a second table ("parcels_2", same schema) written afterwards through the SAME TargetGeopackage, the way
+	// the command line tool handles a source with several tables; its geometries lie 5000 units further east
+	Second *c12Part `json:"second_table,omitempty"`
+}
+
+type c12Part struct {
+	N       int    `json:"features"`
+	Pattern string `json:"pattern"`
+}
+
+func shiftGeom(g geom.Geometry, dx float64) geom.Geometry {
+	switch v := g.(type) {
+	case geom.Point:
+		return geom.Point{v[0] + dx, v[1]}
+	case geom.Polygon:
+		out := make(geom.Polygon, len(v))
+		for i, r := range v {
+			out[i] = make([][2]float64, len(r))
+			for j, p := range r {
+				out[i][j] = [2]float64{p[0] + dx, p[1]}
+			}
+		}
+		return out
+	case geom.MultiPolygon:
+		out := make(geom.MultiPolygon, len(v))
+		for i, pl := range v {
+			out[i] = shiftGeom(geom.Polygon(pl), dx).(geom.Polygon)
+		}
+		return out
+	}
+	return g
 }
 
 type feat struct {
@@ -154,6 +186,15 @@ func c12Cases(thorough bool) []c12Case {
 			}
 		}
 	}
+	// two tables through one target: every pair of short patterns (incl. empty tables) x page sizes 1..2
+	pats := []string{"", "A", "B", "E", "AA", "AB", "BA", "AE", "AAA"}
+	for p := 1; p <= 2; p++ {
+		for _, p1 := range pats {
+			for _, p2 := range pats {
+				cs = append(cs, c12Case{Page: p, N: len(p1), Pattern: p1, Schema: "mixed", GType: "POLYGON", Second: &c12Part{N: len(p2), Pattern: p2}})
+			}
+		}
+	}
 	return cs
 }
 
@@ -201,18 +242,26 @@ func attrsEqual(a, b []interface{}) bool {
 // c12One runs one case; returns (signature, what) of the first discrepancy
 func c12One(work string, shard int, c c12Case, srcTables map[string][]tgpkg.Table) (string, string) {
 	key := c.Schema + "/" + c.GType
-	td := c12Table(c.Schema, c.GType)
+	tds := []tableDef{c12Table(c.Schema, c.GType)}
+	parts := []c12Part{{c.N, c.Pattern}}
+	if c.Second != nil {
+		key += "/2"
+		td2 := c12Table(c.Schema, c.GType)
+		td2.Name = "parcels_2"
+		tds = append(tds, td2)
+		parts = append(parts, *c.Second)
+	}
 	if _, ok := srcTables[key]; !ok {
-		src := filepath.Join(work, fmt.Sprintf("c12-src-%d-%s-%s.gpkg", shard, c.Schema, c.GType))
-		if err := createSource(src, rdSRS, []tableDef{td}, nil); err != nil {
+		src := filepath.Join(work, fmt.Sprintf("c12-src-%d-%s-%s-%d.gpkg", shard, c.Schema, c.GType, len(tds)))
+		if err := createSource(src, rdSRS, tds, nil); err != nil {
 			ev.HarnessError("cannot create source: %v", err)
 		}
 		s := tgpkg.SourceGeopackage{}
 		s.Init(src)
 		srcTables[key] = s.GetTableInfo()
 		s.Close()
-		if len(srcTables[key]) != 1 {
-			return "table-info", fmt.Sprintf("GetTableInfo returned %d tables for a source with one spatial table", len(srcTables[key]))
+		if len(srcTables[key]) != len(tds) {
+			return "table-info", fmt.Sprintf("GetTableInfo returned %d tables for a source with %d spatial table(s)", len(srcTables[key]), len(tds))
 		}
 	}
 	tables := srcTables[key]
@@ -224,24 +273,52 @@ func c12One(work string, shard int, c c12Case, srcTables map[string][]tgpkg.Tabl
 		target.Close()
 		return "create-tables", "CreateTables: " + err.Error()
 	}
-	target.Table = tables[0]
-	var want []row
-	ch := make(chan processing.Feature)
-	done := make(chan struct{})
-	go func() { target.WriteFeatures(ch); close(done) }()
-	for i := 0; i < c.N; i++ {
-		f := &feat{cols: c12Attrs(c.Schema, i), g: c12Geom(c.Pattern[i], i, c.GType)}
-		want = append(want, row{Attrs: append([]interface{}{}, f.cols...), Geom: f.g})
-		ch <- f
+	wants := make([][]row, len(tds))
+	for ti, td := range tds {
+		// the table of the target that carries this definition's name
+		found := false
+		for _, t := range tables {
+			if t.Name == td.Name {
+				target.Table, found = t, true
+			}
+		}
+		if !found {
+			target.Close()
+			return "table-info", "GetTableInfo did not return table " + td.Name
+		}
+		ch := make(chan processing.Feature)
+		done := make(chan struct{})
+		go func() { target.WriteFeatures(ch); close(done) }()
+		for i := 0; i < parts[ti].N; i++ {
+			g := c12Geom(parts[ti].Pattern[i], i, c.GType)
+			if ti > 0 {
+				g = shiftGeom(g, 5000)
+			}
+			f := &feat{cols: c12Attrs(c.Schema, i), g: g}
+			wants[ti] = append(wants[ti], row{Attrs: append([]interface{}{}, f.cols...), Geom: f.g})
+			ch <- f
+		}
+		close(ch)
+		<-done
 	}
-	close(ch)
-	<-done
 	target.Close()
 	db, err := openDB(tpath)
 	if err != nil {
 		ev.HarnessError("%v", err)
 	}
 	defer db.Close()
+	for ti, td := range tds {
+		if sig, what := c12CheckTable(db, td, wants[ti], c); sig != "" {
+			if ti > 0 {
+				sig, what = "second-table:"+sig, "second table: "+what
+			}
+			return sig, what
+		}
+	}
+	return "", ""
+}
+
+func c12CheckTable(db *sql.DB, td tableDef, want []row, c c12Case) (string, string) {
 	rb, err := readTable(db, td.Name)
 	if err != nil {
 		return "unreadable-target", err.Error()
